@@ -382,7 +382,12 @@ def memo_lemmas(o, L, S, E, MM, MS, fs, structural, on_sat, bad):
             if not any(b.term and re.search(r"\bmemoize::<", b.term) for b in f.blocks.values()):
                 continue
             exs2 = mirlib.executor([MS])
-            for p2 in exs2.run(f, arg_names=["c", "s"]):
+            an = ["a%d" % k for k in range(len(f.args))]
+            ci = [k for k, a in enumerate(f.args) if "Context<" in a[1]]
+            if len(ci) != 1:
+                continue
+            an[ci[0]] = "c"
+            for p2 in exs2.run(f, arg_names=an):
                 if p2.kind not in ("return",):
                     continue
                 others = [e for e in p2.calls() if not e[1].endswith("memoize") and any(t == ("sym", "c") for a in e[2] for t in ms.subterms(a))]
